@@ -67,9 +67,12 @@ func checkC17(p *Prog, r *Report) {
 		}
 		return true
 	})
-	if timerV == nil || tasksV == nil || drainedV == nil {
-		r.bad("C17.H1", sched.Name, p.Pos(sched.Node), "worker structure", fmt.Sprintf("could not identify the worker's timer (%v), heap (%v) and drained flag (%v)", timerV != nil, tasksV != nil, drainedV != nil), "")
+	if timerV == nil || tasksV == nil {
+		r.bad("C17.H1", sched.Name, p.Pos(sched.Node), "worker structure", fmt.Sprintf("could not identify the worker's timer (%v) and heap (%v)", timerV != nil, tasksV != nil), "")
 		return
+	}
+	if drainedV == nil {
+		r.bad("C17.H4", sched.Name, p.Pos(sched.Node), "stop/drain/reset sequence", "the worker keeps no record of whether its timer channel has been received from, so it cannot stop, drain and reset the timer correctly: with asynctimerchan=1 a tick that fired while the worker was busy stays in the channel, the next round runs with that stale clock value and re-arms the timer too far in the future (tasks run late), or an early tick fires the new timer at once", "")
 	}
 	tasksT := tVar(tasksV)
 	timerC := tFld(tVar(timerV), fieldOfExt(timerV.Type(), "C"))
@@ -429,7 +432,7 @@ func checkC17(p *Prog, r *Report) {
 	}
 
 	// ---- H4
-	{
+	if drainedV != nil {
 		drained := tVar(drainedV)
 		// (a) blocking receives from timer.C outside the select
 		nRecv := 0
@@ -753,7 +756,9 @@ func checkSchedHandOff(p *Prog, r *Report, put, prepend *FuncInfo) {
 				continue
 			}
 			res := c.FindPath(PathQuery{From: Point{ab, 0}, IsBarrier: isSwap, ExitIsTarget: false,
-				OnBlock: func(b *cfg.Block) (bool, bool) { return b.Kind == cfg.KindSelectCaseBody && b != ab && isTopLevelArm(p, prepend, b), false }})
+				OnBlock: func(b *cfg.Block) (bool, bool) {
+					return b.Kind == cfg.KindSelectCaseBody && b != ab && isTopLevelArm(p, prepend, b), false
+				}})
 			if res.Found {
 				okEvery = false
 				why = "after receiving a wake-up token at " + p.Pos(ab.Stmt) + " prepend can wait again without taking the pending slice: the token may have announced tasks appended after the last take — they are never forwarded (until some later Put)"
